@@ -617,6 +617,8 @@ class Sym:
             return self.operand(ops[0])
         if op == "alloca":
             self.mem[inst["id"]] = {}
+            self.alloca_size = getattr(self, "alloca_size", {})
+            self.alloca_size[inst["id"]] = inst.get("alloc_size")
             return ('ptr', ('alloca', inst["id"]), 0)
         if op == "getelementptr":
             p = self.operand(ops[0])
@@ -930,6 +932,18 @@ class Sym:
 
     def _memcpy(self, inst, args, bc):
         dst, src, n = args[0], args[1], args[2]
+        if dst[0] == 'sel' or src[0] == 'sel':
+            # pointer chosen on a path condition: one conditional copy per alternative
+            def leaves(p, cond):
+                if p[0] == 'sel':
+                    return leaves(p[2], mk_and(cond, p[1])) + leaves(p[3], mk_and(cond, mk_not(p[1])))
+                return [(cond, p)]
+            for dc, dp in leaves(dst, TRUE):
+                for sc, sp in leaves(src, TRUE):
+                    c2 = mk_and(bc, mk_and(dc, sc))
+                    if c2 != FALSE:
+                        self._memcpy(inst, (dp, sp, n), c2)
+            return
         if src[0] in ('ld', 'wr', 'call'):
             src = ('ptr', ('mem', src), 0)
         if dst[0] in ('ld', 'wr', 'call'):
